@@ -153,11 +153,15 @@ def rule(rng, balanced=True):
     edits = []
     bal = [0] * n
     order = {'single': 1, 'double': 2, 'triple': 3}
+    mismatch = False
     for _ in range(rng.choice([1, 2, 2, 3, 4])):
         r = rng.random()
         if r < .3 and bonds:
             a, b, kind = rng.choice(bonds)
-            edits.append(('break', a, b, kind if rng.random() < .7 or kind != 'single' else None))
+            # (now and then an untyped break of a multiple bond: not balanced under any reading, must be refused)
+            typed = rng.random() < (.7 if kind == 'single' else .9)
+            edits.append(('break', a, b, kind if typed else None))
+            mismatch = mismatch or (not typed and kind != 'single')
             bal[a] += order[kind]
             bal[b] += order[kind]
             bonds.remove((a, b, kind))
@@ -199,7 +203,7 @@ def rule(rng, balanced=True):
                 edits.append(('raddec', a, None, None))
                 bal[a] += 1
         rng.shuffle(edits)
-    return {'frag': f, 'edits': edits, 'name': 'r%d' % rng.randint(0, 99), 'balanced': all(x == 0 for x in bal)}
+    return {'frag': f, 'edits': edits, 'name': 'r%d' % rng.randint(0, 99), 'balanced': all(x == 0 for x in bal) and not mismatch}
 
 
 def rule_tokens(r, labels):
